@@ -210,6 +210,7 @@ fn scenario_on(lk: LoopKind, comb: Combine, side_left: bool, input: Vec<i64>, si
         nontrivial: !side.is_empty() && rounds >= 2,
         unbounded: false,
         loop_body: false,
+        sometimes: vec![],
     }
 }
 
